@@ -828,7 +828,7 @@ def zoneTargetOk (files : Files) (T : List Name) (pos h : List Char) (hasFb : Bo
     match files.find name with
     | none => !hasFb || winfreeL T fb
     | some f => match f.body with
-      | none => false
+      | none => true             -- not a template: loading it raises (ill-formed files are excluded by `fileOk`, not here)
       | some b => winfreeL T b
 
 mutual
@@ -905,8 +905,7 @@ def fileOkW (T : List Name) (files : Files) (f : File) : Bool :=
   | some b => tagsOkL T b && zoneFreeL files T false b && clsOkL files b &&
       (match f.kind with | .text => textualL b | .markup => true)
 
-/-- the hypothesis `inH` minus "every file is well-formed" (ill-formed files may be in the set; a zone still
-names only well-formed, window-independent targets statically) -/
+/-- the hypothesis `inH` minus "every file is well-formed" -/
 def inHW (T : List Name) (files : Files) : Bool :=
   files.all fun d => d.all fun e => fileOkW T files e.2
 
